@@ -1536,6 +1536,141 @@ func TestVerif_C21(t *testing.T) {
 
 	r.Note("wall time of scripted-remote: %.1fs", time.Since(phaseStart).Seconds())
 
+	// (d) scripted-remote-busy: the same "beyond what was advertised" probe while the Conn is
+	// busy sending: one local stream has used up the congestion window, another has more data
+	// than its stream window (a STREAM_DATA_BLOCKED frame plus a packet's worth of data is
+	// queued), the application has just closed peer streams (a MAX_STREAMS increase is pending),
+	// and a PRNG subset of packets gets acknowledged. Whatever has or has not left the Conn by
+	// then, a stream numbered at the largest limit seen on the wire must be refused.
+	nb := r.N(600, 20000)
+	r.CasesParallel("scripted-remote-busy", nb, 0, func(c *verifrt.Case) {
+		rng := c.Rng
+		side := []connSide{clientSide, serverSide}[rng.IntN(2)]
+		styp := []streamType{uniStream, bidiStream}[rng.IntN(2)]
+		k := int64(1 + rng.IntN(3))
+		fillerWindow := []int64{1000, 1150, 1200, 2400, 4000, 9000}[rng.IntN(6)]
+		hogLen := 1 << 17
+		c.Describe(map[string]any{"side": fmt.Sprint(side), "type": fmt.Sprint(styp), "limit": k, "filler_window": fillerWindow})
+		synctest.Test(t, func(t *testing.T) {
+			tc := newTestConn(t, side, func(p *transportParameters) {
+				p.initialMaxStreamsBidi = 10
+				p.initialMaxStreamsUni = 10
+				p.initialMaxData = 1<<62 - 1
+				p.initialMaxStreamDataUni = int64(hogLen)
+				p.initialMaxStreamDataBidiRemote = fillerWindow
+				p.initialMaxStreamDataBidiLocal = 1 << 20
+			}, func(cf *Config) {
+				cf.MaxUniRemoteStreams = k
+				cf.MaxBidiRemoteStreams = k
+				cf.MaxStreamWriteBufferSize = 1 << 20
+			})
+			tc.handshake()
+			tc.ignoreFrame(frameTypeAck)
+			tc.conn.keysAppData.updateAfter = maxPacketNumber
+			advertised := tc.sentTransportParameters.initialMaxStreamsUni
+			if styp == bidiStream {
+				advertised = tc.sentTransportParameters.initialMaxStreamsBidi
+			}
+			closed := false
+			var nums []packetNumber
+			readAll := func() int {
+				n := 0
+				for _, p := range vlpReadPackets(tc) {
+					n++
+					if p.ptype == packetType1RTT {
+						nums = append(nums, p.num)
+					}
+					for _, f := range p.frames {
+						switch f := f.(type) {
+						case debugFrameMaxStreams:
+							if f.streamType == styp {
+								if f.max < advertised {
+									c.Violation("max-streams-decreased", "busy script: MAX_STREAMS(%v)=%d after %d", styp, f.max, advertised)
+								}
+								advertised = max(advertised, f.max)
+							}
+						case debugFrameConnectionCloseTransport:
+							closed = true
+						}
+					}
+				}
+				return n
+			}
+			var remotes []*Stream
+			for i := int64(0); i < min(k, advertised); i++ {
+				tc.writeFrames(packetType1RTT, debugFrameStream{id: newStreamID(side.peer(), styp, i), fin: true})
+				s, err := tc.conn.AcceptStream(canceledContext())
+				if err != nil {
+					c.Violation("accepted-stream-missing", "busy script: AcceptStream for peer stream %d within the limit: %v", i, err)
+					return
+				}
+				remotes = append(remotes, s)
+			}
+			hog, err := tc.conn.newLocalStream(canceledContext(), uniStream)
+			if err != nil {
+				return
+			}
+			hog.SetWriteContext(canceledContext())
+			hog.Write(make([]byte, 1+rng.IntN(50)))
+			hog.Flush()
+			readAll()
+			small := len(nums)
+			hog.Write(make([]byte, hogLen-100))
+			hog.Flush()
+			readAll()
+			filler, err := tc.conn.newLocalStream(canceledContext(), bidiStream)
+			if err != nil {
+				return
+			}
+			filler.SetWriteContext(canceledContext())
+			filler.Write(make([]byte, int(fillerWindow)+1+rng.IntN(5000)))
+			if rng.IntN(2) == 0 {
+				filler.Flush()
+			}
+			nclose := 1 + rng.IntN(len(remotes))
+			for _, s := range remotes[:nclose] {
+				if styp == bidiStream {
+					s.SetWriteContext(canceledContext())
+				}
+				s.SetReadContext(canceledContext())
+				s.Close()
+			}
+			if readAll() == 0 {
+				r.Event("busy_congestion_blocked_when_max_streams_became_pending", 1)
+			}
+			// acknowledge a PRNG prefix of what was sent: the small packets, or a few more
+			if len(nums) > 0 {
+				upto := nums[min(len(nums)-1, max(0, small-1+rng.IntN(3)))]
+				tc.writeFrames(packetType1RTT, debugFrameAck{ranges: []i64range[packetNumber]{{0, upto + 1}}})
+			}
+			readAll()
+			before := advertised
+			if closed {
+				return
+			}
+			// the probe: a stream numbered at the largest limit seen on the wire
+			tc.writeFrames(packetType1RTT, debugFrameStream{id: newStreamID(side.peer(), styp, advertised)})
+			gotErr := false
+			for _, f := range vlpDrain(tc) {
+				if cc, ok := f.(debugFrameConnectionCloseTransport); ok {
+					gotErr = cc.code == errStreamLimit
+					if !gotErr {
+						c.Violation("beyond-limit-wrong-error-busy", "busy script: stream %d beyond the advertised limit %d answered with %v", advertised, before, cc)
+					}
+				}
+			}
+			if !gotErr {
+				c.Violation("beyond-advertised-limit-accepted-while-conn-busy", "busy script: the peer opened %v stream number %d although the largest stream limit the Conn ever sent is %d (application closed %d of %d peer streams; a MAX_STREAMS increase may be pending but has not been sent): no STREAM_LIMIT_ERROR", styp, before, before, nclose, len(remotes))
+			}
+			r.Event("busy_probes_at_advertised_limit", 1)
+			if before == min(k, 10) {
+				r.Event("busy_probes_with_max_streams_still_unsent", 1)
+			}
+		})
+		r.Eval(true, "busy", side, styp, k, fillerWindow)
+	})
+	r.Require("busy_probes_at_advertised_limit", int64(nb*8/10))
+	r.Require("busy_probes_with_max_streams_still_unsent", 20)
 	r.Require("lossy_runs_completed", int64(n/2))
 	r.Require("lossy_runs_transport_params_read_off_the_wire", int64(n*8/10))
 	r.Require("lossy_local_stream_frames_checked", 2000)
